@@ -146,11 +146,11 @@ def tryLoadUnregistered (w : World) (s : St) (fpath : Str) : Except Err (St × B
   | .error .syntax => .ok (s, false)
   | .error e => .error e
 
-/-- `os.path.isfile(path)`: a regular file (an unreadable one included), through symbolic links -/
-def isRegularAt (w : World) (p : Str) : Bool :=
+/-- `not S_ISREG(os.stat(path).st_mode)` on something `os.walk` listed among the files: a named pipe, socket or device
+    (a dangling link or an unreadable object make the `stat` itself - as before the `open` - raise) -/
+def isSpecialAt (w : World) (p : Str) : Bool :=
   match w.obj? p with
-  | some (.file _) => true
-  | some (.fault _) => true
+  | some (.special _) => true
   | _ => false
 
 /-- one candidate Manifest name in a scanned directory: `for m in manifest_filenames: if m in filenames: …` -/
@@ -161,7 +161,7 @@ def scanNameStep (w : World) (rel : Str) (filenames : List Str) (acc : ScanSt) (
     if acc.st.loaded.any (·.1 == fpath) then .ok acc
     -- only a regular file can be a Manifest: anything else (a named pipe, a socket, a dangling link) is left to the walk,
     -- which reports it like any other non-regular object (repair of finding F20: opening a FIFO blocked for good)
-    else if !isRegularAt w fpath then .ok acc
+    else if isSpecialAt w fpath then .ok acc
     else match tryLoadUnregistered w acc.st fpath with
       | .error e => .error e
       | .ok (st', true) => .ok { acc with st := st', newManifests := acc.newManifests ++ [fpath] }
